@@ -457,8 +457,18 @@ impl ZipOffsetBlobStore {
         }
 
         // Read offset index
-        let mut offsets_image = vec![0u8; header.offsets_bytes as usize];
-        reader.read_exact(&mut offsets_image)?;
+        // As for the content section: the declared size is untrusted until that many bytes
+        // have actually been read, so it must not size an allocation by itself.
+        let mut offsets_image = Vec::new();
+        reader
+            .by_ref()
+            .take(header.offsets_bytes)
+            .read_to_end(&mut offsets_image)?;
+        if offsets_image.len() as u64 != header.offsets_bytes {
+            return Err(ZiporaError::invalid_data(
+                "offset index is shorter than the header declares",
+            ));
+        }
         store.offsets = SortedUintVec::from_bytes(&offsets_image)?;
         store.config.offset_config = *store.offsets.config();
         if store.len() as u64 != header.records() {
